@@ -187,6 +187,7 @@ type Explorer struct {
 
 	panicWhere string
 	noSample   bool
+	hints      map[string]string // vHint: concrete notes for the native replay
 	sliceN     int
 	permN      int
 	// per-path results, merged into the session at path end
@@ -523,6 +524,9 @@ func parseIntValue(s string) *big.Int {
 // model reads the values of all declared inputs (call inside an open sat frame).
 func (ex *Explorer) model() map[string]string {
 	m := map[string]string{}
+	for k, v := range ex.hints {
+		m[k] = v // concrete replay hints recorded by the harness (vHint)
+	}
 	if len(ex.decls) == 0 {
 		return m
 	}
@@ -683,6 +687,7 @@ func (ex *Explorer) RunPath(prefix []Dec) (outcome string) {
 	ex.solverTime = 0
 	ex.panicWhere = ""
 	ex.noSample = false
+	ex.hints = nil
 	ex.permN = 0
 	z := ex.solver()
 	z.send("(push 1)")
